@@ -25,6 +25,19 @@ type (
 )
 
 func (ds *dataStore) save(fileName string) (err error) {
+	// The snapshot is written to a temporary file that replaces the previous snapshot
+	// only when it is complete: a save interrupted at any point leaves the previous
+	// snapshot in place (the temporary name is not one the loader picks up).
+	tempName := fileName + ".tmp"
+	if err = ds.saveTo(tempName); err != nil {
+		os.Remove(tempName)
+		return
+	}
+	err = os.Rename(tempName, fileName)
+	return
+}
+
+func (ds *dataStore) saveTo(fileName string) (err error) {
 	// open output file
 	f, err := os.Create(fileName)
 	if err != nil {
@@ -33,8 +46,8 @@ func (ds *dataStore) save(fileName string) (err error) {
 
 	// close f on exit and check for its returned error
 	defer func() {
-		if err := f.Close(); err != nil {
-			panic(err)
+		if closeErr := f.Close(); closeErr != nil && err == nil {
+			err = closeErr
 		}
 	}()
 
